@@ -53,11 +53,19 @@ class Flight:
         else: yz, xz = cprspec.encode(self.lat, self.lon, odd)
         return self.frame(me_position(self.tc, alt12_of_feet(self.alt), odd, yz, xz))
 
-def history(rng, n_ops, n_planes=4, with_time=True, rx=None, rng_range=None):
+def history(rng, n_ops, n_planes=4, with_time=True, rx=None, rng_range=None, addrs=None):
     rx = rx or rng.choice([(39.0, -77.0), (52.3, 4.8), (-33.9, 151.2), (69.7, 19.0), (0.5, 179.5), (64.1, -21.9)])
     rng_range = rng_range or rng.choice([500, 500, 300, 150, 1000])
     ops = ["T reset %s %s %s" % (rx[0], rx[1], rng_range)]
-    flights = [Flight(rng, rng.bits(24) if not rng.chance(1, 6) else (0xABC000 + i), rx, df=18 if rng.chance(1, 5) else 17) for i in range(n_planes)]
+    # addresses: mostly random; sometimes neighbouring ones; sometimes boundary values (zero, leading zeros, all ones)
+    special = [0x000000, 0x000001, 0x00000A, 0x0ABCDE, 0xFFFFFF, 0x100000, 0x00FF00, 0x000100]
+    flights = [Flight(rng, rng.choice(special) if rng.chance(1, 8) else (rng.bits(24) if not rng.chance(1, 6) else (0xABC000 + i)), rx, df=18 if rng.chance(1, 5) else 17) for i in range(n_planes)]
+    if addrs:
+        for f, a in zip(flights, addrs): f.icao = a
+    seen = set()
+    for f in flights:
+        while f.icao in seen: f.icao = rng.bits(24)
+        seen.add(f.icao)
     names = ["KLM1023", "N3550U", "BAW 12", "", "A1", "DLH4AB  "]
     for k in range(n_ops):
         f = rng.choice(flights)
